@@ -50,6 +50,7 @@ theorem adBackContig_spec (d : Deque) (x index : Nat) (m : Mem) (hi : d.Inv) (hi
   rcases c0 with c0 | c0 <;> rcases c3 with c3 | c3 <;>
     rcases c4 with c4 | c4 <;> rcases c5 with c5 | c5 <;> first | omega | slots
 
+set_option maxHeartbeats 1000000 in -- many (layout × branch) leaves, each closed by omega
 theorem adBackWrap_spec (d : Deque) (x index : Nat) (m : Mem) (hi : d.Inv) (hidx : index < d.size)
     (hroom : d.size < d.cap) (hp : (d.first + index) % d.cap > d.last % d.cap) :
     (wr (d.adBackWrap index m).1 ((d.first + index) % d.cap) x (d.adBackWrap index m).2).2 = m ∧
@@ -195,10 +196,10 @@ theorem addAt_refines_partial (d : Deque) (x index : Nat) (m : Mem) (hi : d.Inv)
     (hD3 : ¬ (1 ≤ index ∧ index + 1 ≤ d.size / 2)) :
     ((d.addAt x index m).1 = (DequeSpec.addAt d.abs x index).1 ∧
       (d.addAt x index m).2.1.abs = (DequeSpec.addAt d.abs x index).2 ∧
-      (d.addAt x index m).2.1.Inv ∧ memSame (d.addAt x index m).2.2 m ∧
+      (d.addAt x index m).2.1.Inv ∧ memSame d.triple (d.addAt x index m).2.2 m ∧
       (d.addAt x index m).2.1.cap = (if index < d.size ∧ d.size = d.cap then 2 * d.cap else d.cap)) ∨
-    ((d.addAt x index m).1 = .errAlloc ∧ (d.addAt x index m).2.1 = d ∧ memSame (d.addAt x index m).2.2 m ∧
-      index < d.size ∧ d.size = d.cap ∧ (m.alloc.1 = false ∨ d.cap = Gen.MAX_POW_TWO)) := by
+    ((d.addAt x index m).1 = .errAlloc ∧ (d.addAt x index m).2.1 = d ∧ memSame d.triple (d.addAt x index m).2.2 m ∧
+      index < d.size ∧ d.size = d.cap ∧ ((m.allocT d.triple).1 = false ∨ d.cap = Gen.MAX_POW_TWO)) := by
   have hsz := hi.2.2.2.2.2
   have hpos := Inv.cap_pos hi
   by_cases h0 : index ≥ d.size
@@ -206,7 +207,7 @@ theorem addAt_refines_partial (d : Deque) (x index : Nat) (m : Mem) (hi : d.Inv)
     rw [addAt_inert d x index m h0]
     unfold DequeSpec.addAt
     rw [if_neg (by simp; omega)]
-    exact ⟨rfl, rfl, hi, memSame_refl m, by rw [if_neg (by omega)]⟩
+    exact ⟨rfl, rfl, hi, memSame_refl _ m, by rw [if_neg (by omega)]⟩
   have hidx : index < d.size := by omega
   have hspec : DequeSpec.addAt d.abs x index = (.ok, d.abs.insertIdx index x) := by
     unfold DequeSpec.addAt; rw [if_pos (by simpa using hidx)]
@@ -232,19 +233,19 @@ theorem addAt_refines_partial (d : Deque) (x index : Nat) (m : Mem) (hi : d.Inv)
       · right
         by_cases hc : d.cap = Gen.MAX_POW_TWO
         · exact hc
-        · cases ha : m.alloc.1
+        · cases ha : (m.allocT d.triple).1
           · rw [expandCapacity_refused d m hc ha] at f3; simp at f3
           · rw [expandCapacity_grow d m hc ha] at f3; simp at f3
   · rw [if_neg hfull]
     obtain ⟨a1, a2, a3, a4, a5⟩ := addAtCore_spec d x index m hi hidx (by omega) hD3
     left
-    exact ⟨a1, a3, a2, by rw [a4]; exact memSame_refl m, by rw [a5, if_neg (by omega)]⟩
+    exact ⟨a1, a3, a2, by rw [a4]; exact memSame_refl _ m, by rw [a5, if_neg (by omega)]⟩
 
 /-- `cc_deque_add_at` for **every** index, finding D3's range included: the invariant is preserved, the
 ledger stays balanced, no access is out of bounds; on `CC_OK` there is exactly one element more and the
 capacity is kept or doubled; on any error the whole state is unchanged -/
 theorem addAt_inv (d : Deque) (x index : Nat) (m : Mem) (hi : d.Inv) :
-    (d.addAt x index m).2.1.Inv ∧ memSame (d.addAt x index m).2.2 m ∧
+    (d.addAt x index m).2.1.Inv ∧ memSame d.triple (d.addAt x index m).2.2 m ∧
     ((d.addAt x index m).1 = .ok → (d.addAt x index m).2.1.size = d.size + 1 ∧ index < d.size ∧
       (d.addAt x index m).2.1.cap = (if d.size = d.cap then 2 * d.cap else d.cap)) ∧
     ((d.addAt x index m).1 ≠ .ok → (d.addAt x index m).2.1 = d ∧
@@ -254,7 +255,7 @@ theorem addAt_inv (d : Deque) (x index : Nat) (m : Mem) (hi : d.Inv) :
   have hpos := Inv.cap_pos hi
   by_cases h0 : index ≥ d.size
   · rw [addAt_inert d x index m h0]
-    exact ⟨hi, memSame_refl m, fun h => by simp at h, fun _ => ⟨rfl, Or.inl ⟨rfl, h0⟩⟩⟩
+    exact ⟨hi, memSame_refl _ m, fun h => by simp at h, fun _ => ⟨rfl, Or.inl ⟨rfl, h0⟩⟩⟩
   have hidx : index < d.size := by omega
   unfold addAt
   rw [if_neg h0]
@@ -274,8 +275,25 @@ theorem addAt_inv (d : Deque) (x index : Nat) (m : Mem) (hi : d.Inv) :
       refine ⟨by rw [f1]; exact hi, f2, fun h => by simp at h, fun _ => ⟨f1, Or.inr ⟨(by first | rfl | trivial), hidx, hfull.symm⟩⟩⟩
   · rw [if_neg hfull]
     obtain ⟨a1, a2, a3, a4, a5⟩ := addAtCore_inv d x index m hi hidx (by omega)
-    refine ⟨a2, by rw [a4]; exact memSame_refl m, fun _ => ⟨a3, hidx, by rw [a5, if_neg (by omega)]⟩, ?_⟩
+    refine ⟨a2, by rw [a4]; exact memSame_refl _ m, fun _ => ⟨a3, hidx, by rw [a5, if_neg (by omega)]⟩, ?_⟩
     intro h; exact absurd a1 h
+
+theorem addAtCore_triple (d : Deque) (x i : Nat) (m : Mem) : (d.addAtCore x i m).2.1.triple = d.triple := by
+  unfold addAtCore
+  dsimp only
+  split; · exact addFirst_triple d x m
+  split; · exact addLast_triple d x m
+  split <;> rfl
+
+theorem addAt_triple (d : Deque) (x i : Nat) (m : Mem) : (d.addAt x i m).2.1.triple = d.triple := by
+  unfold addAt
+  split; · rfl
+  split
+  · dsimp only
+    split
+    · exact expandCapacity_triple d m
+    · rw [addAtCore_triple]; exact expandCapacity_triple d m
+  · exact addAtCore_triple d x i m
 
 /-! ## finding D3: the hypothesis of `addAt_refines_partial` cannot be dropped -/
 
